@@ -1,6 +1,6 @@
 (* The version and downgrade-sentinel statements of C13 on the path where the ClientHello offers a cached
    TLS <= 1.2 session (resumed by the server or not). *)
-From UV Require Import Base.Common Model.Negotiate Model.NegotiateSess Proofs.NegotiateP.
+From UV Require Import Base.Common Model.Negotiate Model.NegotiateSess Proofs.NegotiateP Proofs.NegotiateVersP.
 From Coq Require Import ZifyBool ZifyNat ZifyN.
 
 (* conservative extension: without an offered session the decision is client_run_gen *)
@@ -153,4 +153,34 @@ Lemma wire_suite_sess e v w sess ems fl st :
   synced v w = true -> client_run_sess e v sess ems fl = Complete st -> In (cs_suite st) (w_suites w).
 Proof.
   intros Hs Hr. destruct (synced_inv _ _ Hs) as (S1 & _). rewrite <- S1. eapply sess_suite_offered; eauto.
+Qed.
+
+(* the same two statements under NegotiateVersP.versions_ok (hellos without a supported_versions extension whose spec
+   declares a higher TLSVersMax: Hello.SupportedVersions = accepted versions up to legacy_version) *)
+Lemma version_sess_ok v specmin w sess ems fl st :
+  versions_ok v specmin w = true ->
+  client_run_sess env_fixed v sess ems fl = Complete st -> In (cs_vers st) (advertised specmin w).
+Proof.
+  unfold versions_ok. intros H Hrun. apply orb_true_iff in H. destruct H as [H|H].
+  - exact (version_sess_fixed v specmin w sess ems fl st H Hrun).
+  - unfold versions_synced_nosv in H. rewrite !andb_true_iff in H. destruct H as [[[Hno Heq] Hne] Hmin].
+    apply negb_true_iff in Hno. apply list_eqN_eq in Heq.
+    destruct (sess_completed_version _ _ _ _ _ _ Hrun) as [Hin Hoff].
+    unfold version_offered in Hoff. cbn [e_fix_version env_fixed] in Hoff.
+    destruct (cv_sv v) as [|x0 xs] eqn:Esv; [discriminate|].
+    apply memN_In in Hoff. rewrite Heq in Hoff. apply filter_In in Hoff. destruct Hoff as [_ Hle].
+    unfold advertised. rewrite Hno. apply filter_In. split; [apply (client_versions_sub v); exact Hin|].
+    unfold client_versions in Hin. apply filter_In in Hin. destruct Hin as [_ Hf].
+    unfold V12 in *. destruct (cv_vmin v =? 0) eqn:E0; lia.
+Qed.
+
+Lemma canary_sess_ok v specmin w sess ems fl st :
+  versions_ok v specmin w = true -> offers13 w = true ->
+  h_tail (first_hello fl) = 1 \/ h_tail (first_hello fl) = 2 ->
+  client_run_sess env_fixed v sess ems fl = Complete st -> cs_vers st = V13.
+Proof.
+  unfold versions_ok. intros H Ho Ht Hrun. apply orb_true_iff in H. destruct H as [H|H].
+  - exact (canary_sess_fixed v specmin w sess ems fl st H Ho Ht Hrun).
+  - unfold versions_synced_nosv in H. rewrite !andb_true_iff in H. destruct H as [[[Hno _] _] _].
+    unfold offers13 in Ho. apply andb_true_iff in Ho. destruct Ho as [Ho _]. rewrite Ho in Hno. discriminate.
 Qed.
